@@ -88,6 +88,8 @@ func runC14(cases string, res *Result) {
 	c14ExactCapacities(res)
 	c14HeldSerialisedForms(res)
 	c14BodiesOfAnySize(res)
+	c14StaticTemplates(res)
+	c14ThroughLoaders(cases, res)
 	readCases(cases, func(c Case) {
 		if _, has := c["src"]; has {
 			src := c.hexs("src")
